@@ -10,6 +10,9 @@ EXTENDS CGSem, CGLint
 
 RECURSIVE TFISetTx(_,_)
 TFISetTx(c, S) == LET P == S \cup UNION {FiSet(c, i) : i \in S} IN IF P = S THEN S ELSE TFISetTx(c, P)
+\* "not evaluable by truth tables": the harness's fault if the INPUT is cyclic / too wide (never generated), else the
+\* produced circuit is cyclic or has free signals it must not have - a failed clause of the property
+NotEval(inputsBad) == IF inputsBad THEN {"MACHINERY:input_not_evaluable"} ELSE {"result_cyclic_or_unexpected_free_signals"}
 Machinery(c) == (IF WellFormedRec(c) THEN {} ELSE {"MACHINERY:malformed_record"})
                 \cup (IF c.acyc /\ ~IsTopo(c) THEN {"MACHINERY:not_topological"} ELSE {})
 
@@ -81,6 +84,8 @@ Judge_insert_registers(e) ==
   \cup {"type_changed:" \o c.names[i] : i \in {j \in 1..c.n : HasName(r, c.names[j]) /\ r.ty[Idx(r, c.names[j])] # c.ty[j]}}
   \cup {"unexpected_new_node:" \o r.names[i] : i \in {j \in 1..r.n : ~HasName(c, r.names[j])
                                                         /\ r.ty[j] \notin {"bb_input", "bb_output", "buf", "input"}}}
+  \cup {"new_input_does_not_feed_flop_pins:" \o r.names[i] : i \in {j \in Inputs(r) : ~HasName(c, r.names[j])
+                                    /\ (FoSet(r, j) = {} \/ \E k \in FoSet(r, j) : r.ty[k] # "bb_input")}}
   \cup (IF LintClean(r) THEN {} ELSE {"result_not_lint_clean"})
   \cup (IF ~(c.acyc /\ rt.acyc /\ TransparentOf(rt, r, "d", "q")) THEN {}
         ELSE LET ev == SubFreeEval(c, rt) IN
@@ -116,7 +121,8 @@ Judge_miter(e) ==
   IN Machinery(c0) \cup Machinery(c1) \cup Machinery(m)
      \cup (IF InputNames(m) = S THEN {} ELSE {"inputs_are_not_the_tied_startpoints"})
      \cup (IF OutputNames(m) = {"sat"} THEN {} ELSE {"outputs_are_not_sat"})
-     \cup (IF ~(m.acyc /\ c0.acyc /\ c1.acyc) \/ ~HasName(m, "sat") \/ NFree(m) > MaxBits THEN {"MACHINERY:not_evaluable"}
+     \cup (IF ~(m.acyc /\ c0.acyc /\ c1.acyc) \/ ~HasName(m, "sat") \/ NFree(m) > MaxBits
+           THEN NotEval(~(c0.acyc /\ c1.acyc) \/ NFree(c0) + NFree(c1) > MaxBits)
            ELSE IF \E i \in FreeNodes(c0) : ~HasName(m, P0(c0.names[i])) THEN {"free_signal_of_c0_missing"}
            ELSE IF \E i \in FreeNodes(c1) : ~HasName(m, P1(c1.names[i])) THEN {"free_signal_of_c1_missing"}
            ELSE LET U == StdU(m)
@@ -142,7 +148,7 @@ Judge_ternary(e) ==
                   t.ty[k] # c.ty[j] \/ t.out[k] # c.out[j] \/ FiNames(t, k) # FiNames(c, j))}}
      \cup (IF ~(c.acyc /\ t.acyc) \/ NFree(t) > MaxBits \/ {e.map[j][1] : j \in 1..Len(e.map)} # NameSet(c)
               \/ (\E j \in 1..Len(e.map) : ~HasName(t, e.map[j][2])) \/ (\E i \in 1..c.n : ~HasName(t, c.names[i]))
-           THEN {"MACHINERY:not_evaluable"}
+           THEN NotEval(~c.acyc \/ 2 * NFree(c) > MaxBits)
            ELSE LET U == StdU(t)
                     vt == EvalStd(t)
                     XOf(nm) == vt[Idx(t, e.map[CompOf(nm)][2])].one
@@ -180,7 +186,8 @@ Judge_unroll(e) ==
      \cup (IF mapOK THEN {} ELSE {"io_map_incomplete"})
      \cup (IF ~mapOK THEN {} ELSE
            (IF InputNames(uc) = wantInputs THEN {} ELSE {"inputs_of_unrolled_circuit"})
-           \cup (IF ~(c.acyc /\ uc.acyc) \/ NFree(uc) > MaxBits \/ FreeNames(c) # InputNames(c) THEN {"MACHINERY:not_evaluable"}
+           \cup (IF ~(c.acyc /\ uc.acyc) \/ NFree(uc) > MaxBits \/ FreeNames(c) # InputNames(c)
+                 THEN NotEval(~c.acyc \/ FreeNames(c) # InputNames(c) \/ NFree(c) * e.n > MaxBits)
                  ELSE LET U == StdU(uc)
                           vuc == EvalStd(uc)
                           run == RunSteps(e, c, U, vuc, 0, <<>>)
@@ -223,7 +230,7 @@ Judge_sequential_unroll(e) ==
            \cup (IF InputNames(uc) = wantIn THEN {} ELSE {"inputs_of_unrolled_circuit"})
            \cup {"loaded_input_dropped:" \o c.names[i] : i \in {j \in Inputs(c) : ~HasMap(e, c.names[j]) /\ FoSet(c, j) # {}
                                                                       /\ \E k \in FoSet(c, j) : c.ty[k] # "bb_input"}}
-           \cup (IF ~(c.acyc /\ uc.acyc) \/ NFree(uc) > MaxBits THEN {"MACHINERY:not_evaluable"}
+           \cup (IF ~(c.acyc /\ uc.acyc) \/ NFree(uc) > MaxBits THEN NotEval(~c.acyc \/ NFree(c) * e.n > MaxBits)
                  ELSE LET U == StdU(uc)
                           vuc == EvalStd(uc)
                           run == SeqSteps(e, c, U, vuc, 0, <<>>)
@@ -255,7 +262,7 @@ Judge_sensitization_transform(e) ==
      \cup (IF OutputNames(m) = {"sat"} THEN {} ELSE {"outputs_are_not_sat"})
      \cup (IF InputNames(m) \subseteq InputNames(c) THEN {} ELSE {"inputs_not_from_circuit"})
      \cup (IF ~(c.acyc /\ m.acyc) \/ NFree(m) > MaxBits \/ ~HasName(m, "sat") \/ FreeNames(m) # InputNames(m)
-           THEN {"MACHINERY:not_evaluable"}
+           THEN NotEval(~c.acyc \/ NFree(c) > MaxBits)
            ELSE LET U == StdU(m)  vm == EvalStd(m)
                     fv == FvFrom(c, m, vm)
                     v == Eval(c, U, fv)
@@ -297,7 +304,7 @@ Judge_sensitivity_transform(e) ==
   IN Machinery(c) \cup Machinery(sen)
      \cup (IF InputNames(sen) = NamesOf(c, sp) THEN {} ELSE {"inputs_are_not_the_cone_startpoints"})
      \cup (IF ~(c.acyc /\ sen.acyc) \/ NFree(sen) > MaxBits \/ FreeNames(sen) # InputNames(sen) \/ InputNames(sen) # NamesOf(c, sp)
-           THEN {"MACHINERY:not_evaluable"}
+           THEN NotEval(~c.acyc \/ NFree(c) > MaxBits)
            ELSE LET U == StdU(sen)  vs == EvalStd(sen)
                     fv == FvFrom(c, sen, vs)
                     v == Eval(c, U, fv)
